@@ -308,6 +308,8 @@ def minimise(s: str, fails: Any) -> str:
 
 def sig_of(fmt: str, form: str, pct: str, cls: str, m: str) -> str:
     core_ = ''.join(ch for ch in m if ch not in 'a\n') or ('empty' if not m else 'plain')
+    if core_ and set(core_) == {'%'}:
+        core_ = '%' if cls.startswith('exc') else '%%'       # any run of percent signs: one root cause (interpolation is on)
     tail = '' if '%' in core_ else '/' + form
     return f'quoting/{fmt}/{pct}/{cls}/{core_.encode("unicode_escape").decode()!r}{tail}'.replace(' ', '<sp>')
 
